@@ -18,21 +18,23 @@ import (
 	"verifharness/props/conc"
 )
 
-func init() { proc.Register("c04-worker", func(a []string) int { conc.Setup(7, 25); return par.Serve(a, round) }) }
+func init() {
+	proc.Register("c04-worker", func(a []string) int { conc.Setup(7, 25); return par.Serve(a, round) })
+}
 
 // RoundRes is what a round reports.
 type RoundRes struct {
-	Sig        string        `json:"sig"`
-	Overlapped bool          `json:"overlapped"`
-	Writers    int           `json:"writers"`
-	Slot       int           `json:"slot"`
-	Profile    string        `json:"profile"`
-	Procs      int           `json:"procs"`
-	Txns       []conc.TxnRec `json:"txns"`
-	Problem    string        `json:"problem,omitempty"`  // violation text
-	Class      string        `json:"class,omitempty"`    // violation class
-	Harness    string        `json:"harness,omitempty"`
-	MaxCommitMs int64        `json:"max_commit_ms"`
+	Sig         string        `json:"sig"`
+	Overlapped  bool          `json:"overlapped"`
+	Writers     int           `json:"writers"`
+	Slot        int           `json:"slot"`
+	Profile     string        `json:"profile"`
+	Procs       int           `json:"procs"`
+	Txns        []conc.TxnRec `json:"txns"`
+	Problem     string        `json:"problem,omitempty"` // violation text
+	Class       string        `json:"class,omitempty"`   // violation class
+	Harness     string        `json:"harness,omitempty"`
+	MaxCommitMs int64         `json:"max_commit_ms"`
 }
 
 func round(i int, seed int64, extra []string) any {
